@@ -11,6 +11,7 @@ CONSTANTS
   Level = 1
   GenBad = FALSE
   SampleK = 0
+  EmitOneIn = 1
   Focus <- FocusAll
 INVARIANT DeclaredCols
 INVARIANT HistOK
